@@ -40,9 +40,8 @@ theorem import_all_or_nothing (merge : Bool) (file : ImportFile) (cb : Option (N
   obtain ⟨h1, h2⟩ := import_fails_unchanged merge file cb now s hf
   exact ⟨by rw [TofuTxn.script_complete, h1], h2⟩
 
-/-- a bad entry at position `i` makes the import fail, whatever precedes and follows it (so the
-    hypothesis of `import_all_or_nothing` is met for a defect at *any* position), provided the
-    entries before it do not make the callback raise first — in which case it fails all the same -/
+/-- a bad entry makes the import fail whatever precedes and follows it and whatever the callback
+    does (so the hypothesis of `import_all_or_nothing` is met for a defect at *any* position) -/
 theorem bad_entry_fails (merge : Bool) (pre post : List Entry) (bad : Entry) (cb : Option (Nat → Cb)) (now : Nat)
     (s : Store) (hbad : checkEntry bad ≠ .ok) :
     importFails merge (.entries (pre ++ bad :: post)) cb now s = true := by
